@@ -157,6 +157,14 @@ def gen_cases(seed, chunk, n, tier):
                     ix = gen.rand_index(rng, sym, max_charges=3, max_size=3)
                     a = gen.rand_array(rng, sym, indices=[ix, ix.conj()], static=static, dtype=dtype, keep=1.0,
                                        charge=gen.py_combine(sym, []))
+                    if len(ix.chargemap) >= 2 and rng.random() < 0.5:
+                        # a matrix RESTRICTED after construction: the blocks of one charge are removed and the
+                        # index tables synchronised (new index objects derived from ones already conjugated)
+                        cdrop = rng.choice(sorted(ix.chargemap))
+                        for s_ in [s_ for s_ in a.blocks if cdrop in s_]:
+                            del a.blocks[s_]
+                        a = a.sync_charges() if rng.random() < 0.5 else a.sync_charges(inplace=True)
+                        restricted = True
                 else:
                     # not block diagonal in the charge labels: arbitrary charge / equal directions; all
                     # charge sizes equal so that every block is square
